@@ -19,7 +19,7 @@ SRC = os.path.join(VERIF, "replay")
 CACHE = os.path.join(VERIF, ".cache")
 
 FAMILIES = {
-    "C01": ["ctor", "insrem", "panicsafe"], "C02": ["access"], "C03": ["views"],
+    "C01": ["ctor", "insrem", "panicsafe", "sort"], "C02": ["access"], "C03": ["views"],
     "C04": ["views", "access", "swapfill", "copy", "translate", "sort"],
     "C05": ["insrem"], "C06": ["insrem"], "C07": ["insrem"],
     "C08": ["rows", "views"], "C09": ["cols", "views"], "C10": ["cells", "views"], "C11": ["panicsafe"], "C12": ["leak"],
